@@ -149,7 +149,9 @@ impl EventGen for Container {
                 if let Some((start, _end)) = self.0.event_range {
                     el.event_range = Some((start, start)); // emulate an Empty element
                 }
-                el.generate_events(context)
+                // Rendered directly rather than through `SvgElement::generate_events()`:
+                // that would count the text content as a further nesting level.
+                OtherElement(el).generate_events(context)
             } else {
                 let mut new_el = self.0.clone();
                 // Special case <svg> elements with an xmlns attribute - passed through
